@@ -56,6 +56,65 @@ theorem linMethod?_float_internal (d : LinDesc) (ity pty : BaseType) (h : ity = 
     rw [hity] at hint
     rcases h with rfl | rfl <;> simp [dtype?] at hi <;> subst hi <;> simp [DType.isInt] at hint
 
+/-! ### IDENTICAL with a physical type that differs from the coded type
+
+    W21 and the earlier tiers type an object leaf by the DOP `.simple o.dct o.bt .identical` (physical type = coded type).
+    `IdenticalCompuMethod.compu_method_from_et` admits a different physical type **only among the three string types**
+    (A_ASCIISTRING / A_UTF8STRING / A_UNICODE2STRING — e.g. a coded A_ASCIISTRING shown as A_UNICODE2STRING); any other mismatch is an
+    `odxassert` failure at load time in strict mode (clause `loadable`; the model's `CCompu.method?` does not repeat that check, it
+    describes the DOP object however it was built).  `DataObjectProperty.encode_into_pdu`: `is_valid_physical_value` checks the value
+    against the PHYSICAL type (`typeAdmits phys`), the conversion is the identity, the diag-coded type then checks it against the coded
+    type (`Obj.inRange`); decoding returns the internal value unchanged. -/
+
+def BaseType.isStr : BaseType → Bool
+  | .ascii | .utf8 | .unicode2 => true
+  | _ => false
+
+structure IdLeaf where
+  o : Obj
+  phys : BaseType
+  v : IVal
+
+def IdLeaf.dop (l : IdLeaf) : Dop := .simple l.o.dct l.phys .identical
+
+/-- what the loader accepts for IDENTICAL -/
+def IdLeaf.loadable (l : IdLeaf) : Prop := l.phys = l.o.bt ∨ (l.o.bt.isStr = true ∧ l.phys.isStr = true)
+
+/-- the object can hold `v`, the physical type admits it, the loader accepts the pair of types -/
+def IdLeaf.ok (l : IdLeaf) : Prop := l.o.ok ∧ l.o.inRange l.v ∧ typeAdmits l.phys l.v = true ∧ l.loadable
+
+theorem IdLeaf.convOk (l : IdLeaf) (h : l.ok) : ConvOk l.dop l.o.dct (.atom l.v) (.atom l.v) l.v where
+  enc := by
+    intro f es
+    unfold IdLeaf.dop encodeDop
+    simp [h.2.2.1]
+  dec := by
+    intro f ds ds' hdec
+    unfold IdLeaf.dop decodeDop
+    simp [bind, run_bind, hdec, pure, run_pure]
+  sup_ne_none := by simp
+
+def IdLeaf.comp (l : IdLeaf) : Comp := Comp.ofConvLeaf l.o l.dop (.atom l.v) (.atom l.v) l.v
+theorem IdLeaf.comp_ok (l : IdLeaf) (h : l.ok) : l.comp.Ok := Comp.ofConvLeaf_ok _ _ _ _ _ h.1 h.2.1 (l.convOk h)
+theorem IdLeaf.comp_endOk (l : IdLeaf) : l.comp.EndOk := Comp.ofConvLeaf_endOk _ _ _ _ _
+def IdLeaf.constComp (l : IdLeaf) (supplied : Bool) : Comp := Comp.ofConvPhysConst l.o l.dop (.atom l.v) (.atom l.v) l.v supplied
+theorem IdLeaf.constComp_ok (l : IdLeaf) (h : l.ok) (b : Bool) : (l.constComp b).Ok :=
+  Comp.ofConvPhysConst_ok _ _ _ _ _ b h.1 h.2.1 (l.convOk h) (pvalEq_atom_self _) (pvalEq_atom_self _)
+theorem IdLeaf.constComp_endOk (l : IdLeaf) (b : Bool) : (l.constComp b).EndOk := Comp.ofConvPhysConst_endOk _ _ _ _ _ b
+def IdLeaf.defaultComp (l : IdLeaf) (dv : IVal) (omitted : Bool) : Comp :=
+  Comp.ofConvDefault l.o l.dop (.atom dv) omitted (.atom l.v) (.atom l.v) l.v
+theorem IdLeaf.defaultComp_ok (l : IdLeaf) (h : l.ok) (dv : IVal) (om : Bool) (hom : om = true → l.v = dv) :
+    (l.defaultComp dv om).Ok :=
+  Comp.ofConvDefault_ok _ _ _ _ _ _ _ h.1 h.2.1 (l.convOk h) (fun e => by rw [hom e])
+theorem IdLeaf.defaultComp_endOk (l : IdLeaf) (dv : IVal) (om : Bool) : (l.defaultComp dv om).EndOk :=
+  Comp.ofConvDefault_endOk _ _ _ _ _ _ _
+
+/-- the hypothesis `typeAdmits` is sharp: a value the physical type does not admit is an EncodeError (strict and lenient) -/
+theorem IdLeaf.encode_not_admitted (o : Obj) (phys : BaseType) (v : IVal) (h : typeAdmits phys v = false) (f : Nat)
+    (es : EncState) (st : Bool) : encodeDop (f + 1) (.simple o.dct phys .identical) (.atom v) es st = .error (.encode, es) := by
+  unfold encodeDop
+  simp [h, run_raise]
+
 /-! ### LINEAR with a real physical type -/
 
 /-- encoding side, any numeric physical value (`int` or finite `float`) inside the guard -/
